@@ -377,7 +377,7 @@ pub fn owned(prop: &str, v: &Violation) -> bool {
         "C03" => strict && (ledger || v.class == BadValue || v.ownership),
         "C04" => v.op == Op::TypeProbe,
         "C05" => {
-            matches!(v.class, MemEnv | LenGtCap | ObjectGuard | StorageLeak | BadValue | GarbageDrop | SharedStorage)
+            matches!(v.class, MemEnv | LenGtCap | ObjectGuard | StorageLeak | BadValue | GarbageDrop | SharedStorage | Memcheck)
                 || (v.class == Alloc && !v.detail.contains("layout"))
                 || v.faulted == F_MEM_FAIL
         }
@@ -391,7 +391,7 @@ pub fn owned(prop: &str, v: &Violation) -> bool {
         "C13" => strict && content && (matches!(v.op, Op::Get | Op::Mutate | Op::Swap) || (v.op == Op::Take && v.via == VIA_ERASED && matches!(v.sink, SINK_MUTATE | SINK_SWAP | SINK_INSPECT))),
         "C14" => strict && ((v.op == Op::Iter && content) || (matches!(v.op, Op::Drain | Op::Splice) && v.class == EvMismatch && !v.panic_involved)),
         "C17" => strict && v.op == Op::RawTrip,
-        "C18" => matches!(v.class, Alloc | HeapLeak | HeapBlock) || (crash && v.detail.contains("allocator monitor")),
+        "C18" => matches!(v.class, Alloc | HeapLeak | HeapBlock | Memcheck) || (crash && v.detail.contains("allocator monitor")),
         "C19" => true,
         _ => false,
     }
